@@ -90,6 +90,11 @@ def indexed_edit_case(case, data, raw):
         ta, tb = raw.find(words[i][2]), raw.find(words[j][2]) + len(words[j][2])
         if not (0 <= ta < tb) or "\n\n" in raw[ta:tb] or " | " in raw[ta:tb]:
             continue
+        # the two words must have been found where the paragraph has them: the slice of the extracted text, emphasis
+        # markers aside, is exactly the paragraph's characters (a word that is a prefix of another word elsewhere —
+        # 'quiver' / 'quiver1' — or that sits in annotation text would otherwise address a different place)
+        if raw[ta:tb].replace("*", "").replace("_", "") != "".join(c["c"] for c in seg).replace("*", "").replace("_", ""):
+            continue
         new = rng.choice(["", "", "SWAPPED", "x y"])
         edit = {"target": raw[ta:tb], "new": new, "comment": None, "index": ta}
         r = engine_run.run_edits(data, [edit])
